@@ -88,10 +88,13 @@ def build_and_send(instrumented, cfg):
         elif k == "oauth2":
             plugins.append(pl.OAuth2Auth(p["v"]))
         elif k == "oauth2_refresh":
-            new = p["v2"]
+            seq = [p["v2"]] + ([p["v3"]] if "v3" in p else [])
+            state = {"i": 0}
 
-            async def cb(old, _new=new):
-                return _new
+            async def cb(old, _seq=seq, _st=state):
+                r = _seq[min(_st["i"], len(_seq) - 1)]
+                _st["i"] += 1
+                return r
 
             plugins.append(pl.OAuth2Auth(p["v"], refresh_callback=cb))
     if cfg["auth_mode"] == "none":
@@ -113,7 +116,17 @@ def build_and_send(instrumented, cfg):
     if len(rec.calls) != 1:
         return ("calls", len(rec.calls))
     m, u, sent = rec.calls[0]
-    return (m, u, _plain(sent))
+    if "req_headers2" not in cfg:
+        return (m, u, _plain(sent))
+    # history: a second request on the same transport (and the same plugin objects)
+    kw2 = {}
+    if cfg["req_headers2"] is not None:
+        kw2["headers"] = cfg["req_headers2"]
+    drive(t.request("GET", "/p", **kw2))
+    if len(rec.calls) != 2:
+        return ("calls", len(rec.calls))
+    m2, u2, sent2 = rec.calls[1]
+    return (m, u, _plain(sent), m2, u2, _plain(sent2))
 
 
 def _plain(d):
@@ -127,8 +140,9 @@ def _plain(d):
     return out
 
 
-def expected(cfg):
-    """The statement's reference fold, written independently of the transport."""
+def expected(cfg, second=False):
+    """The statement's reference fold, written independently of the transport.  second=True: the fold for the second
+    request of a history (its own per-request headers; an OAuth2 token refreshed earlier stays refreshed)."""
     headers = []
 
     def put(lst, name, val):
@@ -140,7 +154,7 @@ def expected(cfg):
 
     for n, v in (cfg["defaults"] or {}).items():
         put(headers, n, v)
-    for n, v in (cfg["req_headers"] or {}).items():
+    for n, v in ((cfg["req_headers2"] if second else cfg["req_headers"]) or {}).items():
         put(headers, n, v)
     params = None if cfg["params"] in ("absent", None) else list(cfg["params"].items())
     cookies = None if cfg["cookies"] in ("absent", None) else list(cfg["cookies"].items())
@@ -152,6 +166,8 @@ def expected(cfg):
             elif k == "oauth2_refresh":
                 new = p["v2"]
                 tok = new if len(new) > 0 else p["v"]
+                if second and "v3" in p:
+                    tok = p["v3"] if len(p["v3"]) > 0 else tok
                 put(headers, "Authorization", "Bearer " + tok)
             elif k == "apikey_header" or k == "headers":
                 put(headers, p["name"], p["v"])
@@ -244,6 +260,14 @@ class TransportOb(Obligation):
             cfg["defaults"] = {name(): val(1)}
             cfg["req_headers"] = None
             cfg["params"] = {"q": val(1)} if e.choose(2) else None
+        elif self.shape == "history":  # two requests on one transport: nothing of the first may leak into the second
+            cfg["bearer_token"] = val(1) if e.choose(2) else None
+            cfg["defaults"] = hdrs(1)
+            cfg["req_headers"] = hdrs(2)
+            cfg["req_headers2"] = hdrs(1)
+            for p in plugins:
+                if p["kind"] == "oauth2_refresh":
+                    p["v3"] = mk_sym_str(e.choose(2), "s%d" % cnt[0], VAL_ALPHA)
         else:  # "passthrough": caller's params / cookies / json with every single plugin
             cfg["defaults"] = None
             cfg["req_headers"] = {"X-A": val(1)}
@@ -263,17 +287,26 @@ class TransportOb(Obligation):
         cfg = inp["cfg"]
         if isinstance(r, explore.Raised) or r[0] == "calls":
             return False
+        if len(r) == 6:
+            if not self._one(cfg, r[3:], True):
+                return False
+            r = r[:3]
+        return self._one(cfg, r, False)
+
+    def _one(self, cfg, r, second):
         m, u, sent = r
         if m != "GET" or u != "/p":
             return False
-        eh, ep, ec = expected(cfg)
+        eh, ep, ec = expected(cfg, second)
+        if second:
+            ep = ep if cfg["params"] in ("absent", None) else [x for x in ep if x[0] not in cfg["params"]] or None
         if not same_items(sent.get("headers"), eh):
             return False
         if not same_items(sent.get("params"), ep):
             return False
         if not same_items(sent.get("cookies"), ec):
             return False
-        if cfg["json"] != "absent":
+        if cfg["json"] != "absent" and not second:
             j = sent.get("json")
             if not (isinstance(j, list) and same_items(j, list(cfg["json"].items()))):
                 return False
@@ -283,7 +316,10 @@ class TransportOb(Obligation):
 
     def describe_violation(self, inp, r):
         eh, ep, ec = expected(inp["cfg"])
-        return "sent %r, expected headers=%r params=%r cookies=%r" % (r, eh, ep, ec)
+        extra = ""
+        if "req_headers2" in inp["cfg"]:
+            extra = "; second request expected headers=%r" % (expected(inp["cfg"], True)[0],)
+        return "sent %r, expected headers=%r params=%r cookies=%r%s" % (r, eh, ep, ec, extra)
 
 
 def mk(n, shape):
@@ -293,15 +329,17 @@ def mk(n, shape):
 def run(tier, rep, only=None):
     if tier == "quick":
         specs = [(MOD, "mk", (0, "precedence")), (MOD, "mk", (1, "passthrough")),
-                 (MOD, "mk", (0, "passthrough")), (MOD, "mk", (1, "plugins")), (MOD, "mk", (2, "plugins"))]
+                 (MOD, "mk", (0, "passthrough")), (MOD, "mk", (1, "plugins")), (MOD, "mk", (2, "plugins")),
+                 (MOD, "mk", (0, "history")), (MOD, "mk", (1, "history"))]
     else:
         specs = [(MOD, "mk", (0, "precedence")), (MOD, "mk", (1, "precedence")),
                  (MOD, "mk", (0, "passthrough")), (MOD, "mk", (1, "passthrough")), (MOD, "mk", (2, "passthrough")),
-                 (MOD, "mk", (1, "plugins")), (MOD, "mk", (2, "plugins")), (MOD, "mk", (3, "plugins"))]
+                 (MOD, "mk", (1, "plugins")), (MOD, "mk", (2, "plugins")), (MOD, "mk", (3, "plugins")),
+                 (MOD, "mk", (0, "history")), (MOD, "mk", (1, "history")), (MOD, "mk", (2, "history"))]
     if only:
         specs = [s for s in specs if only in explore.build(s).name]
     rep.bounds = {"plugins": "<=2 (quick) / <=3 (thorough), every kind and order", "header_names": NAMES,
-                  "values": "symbolic strings, length 1 (0-1 for the refreshed token) over 'ab '", "shapes": "precedence (defaults/request headers/bearer token), plugins (every plugin sequence), passthrough (caller params/cookies/json)", "caller_args": "params absent/None/{q}/{z}; cookies absent/None/{k}; json absent/{b}"}
+                  "values": "symbolic strings, length 1 (0-1 for the refreshed token) over 'ab '", "shapes": "precedence (defaults/request headers/bearer token), plugins (every plugin sequence), passthrough (caller params/cookies/json), history (two requests on one transport: the second must equal its own fold; a refreshed OAuth2 token stays refreshed)", "caller_args": "params absent/None/{q}/{z}; cookies absent/None/{k}; json absent/{b}"}
     rep.stubs = ["httpx.AsyncClient.request -> recording stub (httpx's own header case-folding lies below it: outside the claim)",
                  "OAuth2 refresh callback -> returns a symbolic token or ''"]
     rep.assumptions = ["the reference fold in props/c17.py:expected() is the statement's meaning of 'per-request over defaults, then each plugin in order'"]
